@@ -59,3 +59,35 @@ Proof.
     destruct ((-8388608 <=? v) && (v <? 8388608)) eqn:C; [inversion G; subst; split; [lia|auto]|].
     destruct ((-2147483648 <=? v) && (v <? 2147483648)) eqn:D; [inversion G; subst; split; [lia|auto]|discriminate].
 Qed.
+
+From Asn1V Require Import CGen.GenLogic.
+
+(** get_encoded_integer_lengths = type_length // 8: with the repaired type_length (now in /repo) this is the X.696
+    size of the constrained INTEGER, so the static length of an INTEGER member is right ... *)
+Theorem integer_static_length_is_x696 : forall lo hi w,
+  lo <= hi -> type_length_fixed lo hi = Some w -> x696_int_octets lo hi = Some (w / 8).
+Proof.
+  intros lo hi w Hle H. unfold type_length_fixed in H. unfold x696_int_octets.
+  destruct (lo <? -9223372036854775808) eqn:E1; [discriminate|].
+  destruct (hi >? 18446744073709551615) eqn:E2; [discriminate|].
+  destruct ((lo <? 0) && (hi >? 9223372036854775807)) eqn:E3; [discriminate|].
+  destruct (lo <? 0) eqn:S.
+  - assert (Z0 : (0 <=? lo) = false) by lia. rewrite Z0. cbv zeta beta iota in H.
+    destruct (lo <? -2147483648) eqn:A1; destruct (lo <? -32768) eqn:A2; destruct (lo <? -128) eqn:A3;
+      destruct (hi >? 2147483647) eqn:B1; destruct (hi >? 32767) eqn:B2; destruct (hi >? 127) eqn:B3;
+      destruct (hi >? 0) eqn:B4; cbn in H; inversion H; subst w; try lia;
+      repeat match goal with |- context [if ?c then _ else _] => let X := fresh in destruct c eqn:X; try lia end;
+      reflexivity.
+  - assert (Z0 : (0 <=? lo) = true) by lia. rewrite Z0. cbv zeta beta iota in H.
+    assert (L1 : (lo <? -2147483648) = false) by lia. assert (L2 : (lo <? -32768) = false) by lia.
+    assert (L3 : (lo <? -128) = false) by lia. rewrite L1, L2, L3 in H.
+    destruct (hi >? 4294967295) eqn:B1; destruct (hi >? 65535) eqn:B2; destruct (hi >? 255) eqn:B3;
+      destruct (hi >? 0) eqn:B4; cbn in H; inversion H; subst w; try lia;
+      repeat match goal with |- context [if ?c then _ else _] => let X := fresh in destruct c eqn:X; try lia end;
+      reflexivity.
+Qed.
+
+(** ... while with the type_length before the repair it was not (INTEGER (-1..200): one octet instead of two). *)
+Theorem integer_static_length_unrepaired_refuted :
+  exists lo hi w, lo <= hi /\ type_length lo hi = Some w /\ x696_int_octets lo hi <> Some (w / 8).
+Proof. exists (-1), 200, 8. split; [lia|]. split; [reflexivity|]. vm_compute. discriminate. Qed.
